@@ -251,4 +251,19 @@ def run(chk, tier):
                                    loc=f"{h['loc']['f']}:{x[1]}")
     chk.floor("odd-length-plumbing", "positional odd_length arguments", n_pos, 4)
 
+    # the position advances by the byte count each header decoder *reports*: it must be the count it read (C03 header-bytes-read,
+    # per decoder, per header form, including the item / delimiter early return)
+    from . import c03, report
+    sub = report.Check("C03", tier)
+    c03.run(sub, tier)
+    chk.rule("reported-header-bytes", "every header decoder reports exactly the bytes it consumed: element headers per form, item headers and the FFFE early return (instances of C03 header-bytes-read)")
+    n_hb = 0
+    for inst in sub.instances:
+        if inst["rule"] == "header-bytes-read":
+            n_hb += 1
+            if inst["status"] == "ok":
+                chk.ok("reported-header-bytes", inst["fn"], inst["instance"], inst.get("detail"))
+            else:
+                chk.bad("reported-header-bytes", inst["fn"], inst["instance"], inst.get("expected"), inst.get("found"), loc=inst.get("loc"))
+    chk.floor("reported-header-bytes", "decoder accounting instances", n_hb, 12)
     chk.undecided.append("concrete positions on concrete streams; behaviour of third-party Read implementations")
